@@ -1,5 +1,6 @@
 """C16 — honeywords are drawn from the grammar with the grammar's probabilities; random_walk is reproducible."""
 import os, random, math
+from collections import Counter
 from fractions import Fraction
 from .. import repo, rulesets, oracles, monitors, gstream, session, cli, trained
 from ..evidence import h
@@ -271,6 +272,63 @@ def check_case(run, case):
         session.drop_session(sn)
         repo.drop_rules(name)
 
+def distribution_case(rng, shape=None):
+    """Tie groups of several values at every level: whatever the tool draws with, the values inside a group are equally likely and independent of the draw that
+    chose the group."""
+    shape = shape or rng.choice(['two', 'three'])
+    if shape == 'two':
+        base = [['D1', 0.25], ['D2', 0.75]]
+        terms = {'D1': [['1', 0.5], ['2', 0.5]], 'D2': [['11', 0.5], ['22', 0.5]]}
+    else:
+        base = [['A3', 0.5], ['D2', 0.3], ['O1D1', 0.2]]
+        terms = {'A3': [['abc', 0.35], ['dog', 0.35], ['fox', 0.3]], 'C3': [['LLL', 0.5], ['ULL', 0.5]], 'D2': [['12', 0.4], ['34', 0.4], ['56', 0.2]],
+                 'O1': [['!', 0.5], ['#', 0.5]], 'D1': [['7', 0.6], ['8', 0.4]]}
+    return {'spec': {'encoding': 'utf-8', 'uuid': 'dist-%08x' % rng.getrandbits(32), 'base': base, 'prince': [], 'terms': terms, 'omen': None}, 'distribution': True,
+            'n': 6000, 'hseed': rng.getrandbits(32)}
+
+def check_distribution(run, case):
+    """The real generator, not a scripted one: N words from each random mode; the frequency of every word is compared with its probability under the ruleset.
+    A word is reported only when it is more than 7 standard deviations off (chance about 1e-11 per word for a correct sampler): this finds a sampler whose
+    draws are not independent of each other, which probing one draw at a time cannot see."""
+    import math
+    name, path = gstream.materialise(case['spec'], 'c16d')
+    sn = session.new_session_name('c16d')
+    try:
+        disk = oracles.Disk(path)
+        lang = oracles.Language(disk, True, False)
+        exact = Counter()
+        tot = sum(bp for bi, labs, bp, s_ in lang.base)
+        for bi, idx, pr, labs in lang.preterminals(cap=5000):
+            words = lang.expand(labs, list(idx))
+            # a pre-terminal of probability pr stands for len(words) derivations of probability pr each
+            for w in words:
+                exact[w] += pr / tot
+        z = sum(exact.values())
+        # probabilities of single derivations: normalise over the whole language (the grammar's distribution over its derivations)
+        exact = {w: p_ / z for w, p_ in exact.items()}
+        for mode in ('random_walk', 'honeywords'):
+            r = session.run_main(['-r', name, '-s', sn, '-m', mode, '-n', str(case['n'])], max_guesses=case['n'] + 10)
+            run.ev('distribution_runs')
+            if r.exc is not None or len(r.guesses) != case['n']:
+                run.violation(f'{mode} --limit {case["n"]} wrote {len(r.guesses)} words (exception {r.exc!r})', case); return
+            got = Counter(r.guesses)
+            foreign = [w for w in got if w not in exact]
+            if foreign:
+                run.violation(f'{mode}: words outside the language of the ruleset: {foreign[:5]}', case); return
+            N_ = case['n']
+            for w, p_ in sorted(exact.items()):
+                if N_ * p_ < 20:
+                    continue
+                zscore = (got.get(w, 0) - N_ * p_) / math.sqrt(N_ * p_ * (1 - p_))
+                run.ev('word_frequencies_compared')
+                if abs(zscore) > 7:
+                    run.violation(f'{mode} -n {N_}: {w!r} has probability {p_:.4f} under the ruleset but was drawn {got.get(w, 0)} times ({got.get(w, 0) / N_:.4f}; {zscore:+.1f} standard deviations)',
+                                  case, observed={w_: round(got.get(w_, 0) / N_, 4) for w_ in sorted(exact)}, expected={w_: round(p2, 4) for w_, p2 in sorted(exact.items())}); return
+        run.case(h(['distribution', case['spec']['base'], case['spec']['terms']]))
+    finally:
+        session.drop_session(sn)
+        repo.drop_rules(name)
+
 def run(run, rng):
     run.required_events = ['probes', 'honeyword_expansions', 'cli_runs', 'random_walk_pairs']
     run.min_distinct = 30
@@ -284,6 +342,9 @@ def run(run, rng):
         from . import c09
         run.ev('markov_heavy_cases')
         run.guard(c09.markov_heavy_case(rng, 'quick'), c09.check_markov_heavy, seconds=600)
+    for k, shape in ((2, 'two'), (3, 'three')):
+        if run.shard[0] == k % run.shard[1]:
+            run.guard(distribution_case(rng, shape), check_distribution, seconds=600)
     if run.shard[0] == 0:
         for zc in trained.ZERO_KEYSPACE_CASES:
             run.ev('zero_keyspace_trainings')
@@ -292,4 +353,7 @@ def run(run, rng):
         run.guard(gen_case(rng), check_case, seconds=300)
 
 def replay(run, case):
-    check_case(run, case['case'])
+    if case['case'].get('distribution'):
+        check_distribution(run, case['case'])
+    else:
+        check_case(run, case['case'])
